@@ -30,8 +30,9 @@ def run(ctx):
     lines, sums = cc.run_scenarios(ctx, seeds, 150 if q else 400, halt_ok=True)
     l2, s2 = cc.run_scenarios(ctx, [x + 300 for x in seeds] + [x + 350 for x in seeds], 150 if q else 400, extra=cc.VRF, halt_ok=True)
     l3, s3 = cc.run_scenarios(ctx, [x + 600 for x in seeds[:max(2, len(seeds) // 3)]], 150 if q else 400, extra=["-mintransact", "3"], halt_ok=True)
-    lines += l2 + l3
-    sums += s2 + s3
+    l4, s4 = cc.run_scenarios(ctx, [x + 700 for x in seeds], 150 if q else 400, extra=["-tinystake", "-validators", "5", "-debond", "0"], halt_ok=True)
+    lines += l2 + l3 + l4
+    sums += s2 + s3 + s4
     t = cc.totals(sums)
     for s in sums:
         for p in (s.get("panics") or [])[:2]:
